@@ -87,6 +87,12 @@ def check_cloud(case, ctx):
     # every point is inside its own bounding region
     own = vd.inside(pcoords, got)
     ctx.check(np.asarray(own).shape == e.shape and np.all(own), "some points are outside their own bounding region")
+    # half-open bands, quadrants and the whole plane: infinite bounds are valid regions (W <= E, S <= N) and the predicate stays the closed box
+    inf = float("inf")
+    for band in ((-inf, inf, s, nn), (w, inf, -inf, nn), (-inf, ee, s, inf), (-inf, inf, -inf, inf)):
+        got_band = np.asarray(vd.inside(pcoords, band))
+        exp_band = (np.asarray(e) >= band[0]) & (np.asarray(e) <= band[1]) & (np.asarray(n) >= band[2]) & (np.asarray(n) <= band[3])
+        ctx.check(got_band.shape == e.shape and np.array_equal(got_band, exp_band), "inside with the unbounded region %r is not the closed-box predicate", band)
     # closed box predicate, element-wise, same shape, bool dtype
     res = vd.inside(pcoords, build.plain(tuple(region), build.plain_flag(case)))
     res = np.asarray(res)
@@ -336,7 +342,7 @@ def check_maxabs(case, ctx):
 @st.composite
 def invalid_cases(draw):
     region = draw(gen.regions())
-    kind = draw(st.sampled_from(["W>E", "S>N", "len3", "len5", "len2"]))
+    kind = draw(st.sampled_from(["W>E", "S>N", "len3", "len5", "len2", "len6", "len8"]))
     w, e, s, n = region
     if kind == "W>E":
         bad = [e, w, s, n] if e > w else [w + 1, w, s, n]
@@ -346,6 +352,10 @@ def invalid_cases(draw):
         bad = [w, e, s]
     elif kind == "len5":
         bad = [w, e, s, n, n + 1]
+    elif kind == "len6":
+        bad = [w, e, s, n, 0.0, 1.0]
+    elif kind == "len8":
+        bad = [w, e, s, n, 0.0, 1.0, -5.0, 5.0]
     else:
         bad = [w, e]
     if draw(st.booleans()) and kind in ("W>E", "S>N"):
